@@ -321,6 +321,7 @@ func (t *Topic) messagePump() {
 			goto exit
 		}
 
+		verifPoint("topicpump:have-msg")
 		for i, channel := range chans {
 			chanMsg := msg
 			// copy the message because each channel
